@@ -476,6 +476,36 @@ func famCompare(dir string, seed int64, tier string) {
 		wCb.add(fmt.Sprintf("CbCase %s %s %s", coqRLE(a), coqRLE(b), signStr(s, e)), desc, len(a) > 0 && len(b) > 0)
 	}
 
+	// every truncation of one token's encoding against the whole (and the other way round), for every kind:
+	// the read-error branches of CompareBytes, side A and side B
+	seenK := map[sb.Kind]int{}
+	for _, t := range alpha {
+		seenK[t.Kind]++
+		if seenK[t.Kind] > 2 {
+			continue
+		}
+		whole := runEncode([]sb.Token{t}, 0, 0).bytes
+		if len(whole) > 24 {
+			continue
+		}
+		for k := 0; k < len(whole); k++ {
+			for side := 0; side < 2; side++ {
+				a, b := whole, whole[:k]
+				if side == 1 {
+					a, b = b, a
+				}
+				s, e := cmpBytesImpl(a, b)
+				repCb.Evaluations++
+				repCb.count("class:" + classOf(e))
+				desc := fmt.Sprintf("truncated: a=%x b=%x", a, b)
+				if classOf(e) == "EPanic" {
+					repCb.violate("C07", "comparebytes-panic", fmt.Sprintf("CompareBytes panicked: %v", e), desc)
+				}
+				wCb.add(fmt.Sprintf("CbCase %s %s %s", coqRLE(a), coqRLE(b), signStr(s, e)), desc, len(a) > 0 && len(b) > 0)
+			}
+		}
+	}
+
 	// ---- the same token sequence delivered by different producers compares equal, and orders like the
 	//      token lists: Compare reuses two tokens for the whole walk, producers differ in how they fill them
 	//      (whole-token assignment, kind only for value-less tokens) ----
